@@ -39,12 +39,14 @@ var tConfFlow = map[string][]string{
 }
 
 func c18(c *core.Ctx) map[string]interface{} {
-	c.Explanation = "Static key/field/parameter table check of configuration loading and mode selection (C18). Decided: (R18.keys) the yaml tags of Conf.Configuration are exactly the 24 documented keys of config.yaml (both shipped copies are parsed), unique, on exported fields of a kind fitting the documented values; (R18.load) GetConfiguration reads config.yaml and hands the bytes and its receiver to yaml.Unmarshal, nothing else writes the configuration afterwards (neither in GetConfiguration nor in main), and main loads it before the first read; (R18.flow) every argument of ConnectToAmf, ManageNGSetup, CreateUE, RegisterUE, EstablishPDU, ServiceRequest, ReleasePDU, DeregisterUE and InterfaceByName, and every loop bound, is the unconverted field whose tag is the documented key of that parameter, in both modes; the five test counts reach the five loops (through Min clamps); (R18.mode) GetMode, over all argument-vector lengths 0..4 and both outcomes of the \"-t\" comparison, returns 1 exactly for length 1, 2 exactly for length 2 with \"-t\", 0 otherwise; in main every procedure call is control-dependent on mode==1 or mode==2 and the banners match the branch. NOT decided: yaml.v2's scalar conversion (trusted); README prose."
+	c.Explanation = "Static key/field/parameter table check of configuration loading and mode selection (C18). Decided: (R18.keys) the yaml tags of Conf.Configuration are exactly the 24 documented keys of config.yaml (both shipped copies are parsed), unique, on exported fields of a kind fitting the documented values; (R18.load) GetConfiguration reads config.yaml and hands the bytes and its receiver to yaml.Unmarshal, nothing else writes the configuration afterwards (neither in GetConfiguration nor in main), and main loads it before the first read; (R18.flow) every argument of ConnectToAmf, ManageNGSetup, CreateUE, RegisterUE, EstablishPDU, ServiceRequest, ReleasePDU, DeregisterUE and InterfaceByName, and every loop bound, is the unconverted field whose tag is the documented key of that parameter, in both modes; the five test counts reach the five loops (through Min clamps); (R18.mode) GetMode, over all argument-vector lengths 0..4 and both outcomes of the \"-t\" comparison, returns 1 exactly for length 1, 2 exactly for length 2 with \"-t\", 0 otherwise; in main every procedure call is control-dependent on mode==1 or mode==2 and the banners match the branch. (R18.addr) ConnectToAmf binds the stg endpoint and dials the amf endpoint, each the resolver's answer for its configured address with its configured port, and no lossy net.IP conversion is stored unchecked on the way; (R16.cred) K, OPc and OP reach the subscription data in their own roles. NOT decided: yaml.v2's scalar conversion (trusted); README prose."
 	c.Assumptions = []string{"gopkg.in/yaml.v2 stores each scalar in the field carrying the matching yaml tag without altering it"}
 	fields := r18keys(c)
 	r18load(c)
 	r18flow(c, fields)
 	r18mode(c)
+	r18addr(c)
+	r16cred(c)
 	return nil
 }
 
@@ -544,5 +546,117 @@ func r18mode(c *core.Ctx) {
 			}
 		}
 		c.Check(okB, R, "main:banner:"+t.text, mainFn.Pos(), t.text+" printed in its branch", "the %q banner is not printed in the branch of its mode", t.text)
+	}
+}
+
+// ---------------------------------------------------------------- R18.addr
+// The configured NGAP addresses and ports reach the SCTP association unchanged:
+// ConnectToAmf dials from (stg address, stg port) to (amf address, amf port), and each
+// endpoint's IP is what the resolver returns for the configured string. A lossy
+// conversion on the way (net.IP.To4 yields nil for an IPv6 address) stored without a
+// nil test silently replaces the configured address.
+func r18addr(c *core.Ctx) {
+	if !c.Once("r18addr") {
+		return
+	}
+	const R = "R18.addr"
+	c.Rule(R, "ConnectToAmf: local endpoint = resolver(stg address) : stg port, remote = resolver(amf address) : amf port; no lossy address conversion stored unchecked")
+	conn := mustFunc(c, pTglib, "ConnectToAmf")
+	cp := core.NewPather(conn)
+	// lossy conversions anywhere below ConnectToAmf inside tglib
+	nLossy := 0
+	for f := range staticReach(conn) {
+		if fnPkgPath(f) != pTglib {
+			continue
+		}
+		p := core.NewPather(f)
+		for _, ci := range core.Calls(f) {
+			n := core.CalleeName(ci.Common())
+			if n != "net.IP.To4" && n != "net.IP.To16" {
+				continue
+			}
+			v, isV := ci.(ssa.Value)
+			if !isV {
+				continue
+			}
+			nLossy++
+			stored, tested := false, false
+			for _, r := range core.Referrers(v) {
+				switch y := r.(type) {
+				case *ssa.Store:
+					if y.Val == v {
+						stored = true
+					}
+				case *ssa.BinOp:
+					if k, isK := y.Y.(*ssa.Const); isK && k.Value == nil {
+						tested = true
+					}
+				case ssa.CallInstruction:
+					if core.CalleeName(y.Common()) == "builtin.len" {
+						tested = true
+					}
+				}
+			}
+			key := fmt.Sprintf("tglib.%s:%s(%s)", f.Name(), shortName(n), clip(p.Path(ci.Common().Args[0])))
+			c.Check(!stored || tested, R, key, ci.Pos(), "result tested before use", "%s returns nil for an address of the other family; its result is stored as the endpoint address without a nil test, so a configured IPv6 (resp. IPv4) literal silently becomes an empty address", shortName(n))
+		}
+	}
+	gs := core.CallsTo(conn, pTglib+".getNgapIp")
+	ds := core.CallsTo(conn, pSctp+".DialSCTP")
+	if len(gs) != 1 || len(ds) != 1 {
+		c.SoftUndecided("ConnectToAmf: expected one getNgapIp and one DialSCTP call (found %d, %d)", len(gs), len(ds))
+		return
+	}
+	ga := gs[0].Common().Args
+	okArgs := len(ga) == 4 && cp.Path(ga[0]) == "p0" && cp.Path(ga[1]) == "p1" && cp.Path(ga[2]) == "p2" && cp.Path(ga[3]) == "p3"
+	c.Check(okArgs, R, "tglib.ConnectToAmf:getNgapIp-args", gs[0].Pos(), "(amfIP, stgIP, amfPort, stgPort)", "getNgapIp must receive (amfIP, stgIP, amfPort, stgPort) in this order")
+	da := ds[0].Common().Args
+	gcall := cp.Path(gs[0].(ssa.Value))
+	okDial := len(da) == 3 && cp.Path(da[1]) == gcall+"#1" && cp.Path(da[2]) == gcall+"#0"
+	c.Check(okDial, R, "tglib.ConnectToAmf:dial-roles", ds[0].Pos(), "DialSCTP(local = stg endpoint, remote = amf endpoint)", "DialSCTP must bind the stg endpoint locally and dial the amf endpoint; local is %s, remote is %s", clip(cp.Path(da[1])), clip(cp.Path(da[2])))
+	// getNgapIp: result #0 from (p0, p2), result #1 from (p1, p3)
+	g := mustFunc(c, pTglib, "getNgapIp")
+	gp := core.NewPather(g)
+	type ep struct{ ip, port string }
+	eps := map[string]*ep{}
+	for _, b := range g.Blocks {
+		for _, in := range b.Instrs {
+			st, ok := in.(*ssa.Store)
+			if !ok {
+				continue
+			}
+			ap := gp.Path(st.Addr)
+			if i := strings.LastIndex(ap, "."); i > 0 && strings.HasPrefix(ap, "local:*sctp.SCTPAddr#") {
+				base, field := ap[:i], ap[i+1:]
+				if eps[base] == nil {
+					eps[base] = &ep{}
+				}
+				switch field {
+				case "IPAddrs":
+					eps[base].ip = gp.Path(st.Val)
+				case "Port":
+					eps[base].port = gp.Path(st.Val)
+				}
+			}
+		}
+	}
+	var rets []string
+	for _, b := range g.Blocks {
+		if r, ok := b.Instrs[len(b.Instrs)-1].(*ssa.Return); ok && len(r.Results) == 3 {
+			if k, isNil := r.Results[0].(*ssa.Const); isNil && k.Value == nil {
+				continue
+			}
+			rets = []string{gp.Path(r.Results[0]), gp.Path(r.Results[1])}
+		}
+	}
+	if len(rets) != 2 || eps[rets[0]] == nil || eps[rets[1]] == nil {
+		c.SoftUndecided("getNgapIp: the two endpoint structures are not built in the recognised form (SCTPAddr{IPAddrs, Port} literals returned directly)")
+		return
+	}
+	for i, want := range []struct{ ip, port, name string }{{"p0", "p2", "amf"}, {"p1", "p3", "stg"}} {
+		e := eps[rets[i]]
+		okIP := strings.Contains(e.ip, `call:net.ResolveIPAddr("ip",`+want.ip+`)#0`) && !strings.Contains(e.ip, "To4")
+		c.Check(okIP && e.port == want.port, R, "tglib.getNgapIp:"+want.name+"-endpoint", g.Pos(), "resolver("+want.ip+") : "+want.port,
+			"the %s endpoint must be the resolver's answer for its configured address and its configured port; it is %s : %s", want.name, clip(e.ip), e.port)
 	}
 }
